@@ -55,6 +55,7 @@ def run(ctx):
     else:
         pool.add(tircheck.skeleton_statements(3 if ctx.tier == "thorough" else 2))
         pool.add(tircheck.expression_nestings())
+        pool.add(tircheck.repeated_subexpressions())
         pool.add_generated(12000 if ctx.tier == "thorough" else 1500, max_depth=4)
     pool.run()
     acc = 0
